@@ -371,6 +371,9 @@ def _uncaught(fn, e, acc, order, case=None, trace=None, prop=None):
         acc.violation(sig, make_record('?', 'harness', sig, case=case, trace=trace, observed=text), order)
 
 
+_RECENT = collections.deque(maxlen=40)     # (order, case) run by this worker process, most recent last
+
+
 def _run_chunk(args):
     fn, chunk = args
     acc = Acc()
@@ -379,12 +382,21 @@ def _run_chunk(args):
         if too_many_timeouts():
             acc.extra['cases_skipped_after_timeouts'] += 1
             continue
+        before = set(acc.violations)
         try:
             fn(case, acc, order)
         except PhylibImportError:
             raise
         except Exception as e:
             _uncaught(fn, e, acc, order, case=case)
+        for sig in set(acc.violations) - before:
+            # what this process ran just before: if the case alone does not reproduce the violation in
+            # a fresh process, it is replayed after this history (state kept by the code under test
+            # between calls - module globals, class attributes, caches - is then reproduced too)
+            acc.violations[sig]['record']['process_history'] = {
+                'fn': '%s:%s' % (fn.__module__, fn.__name__),
+                'cases': [jsonable(c) for _, c in _RECENT]}
+        _RECENT.append((order, case))
     acc.lines = drain_lines()
     return acc
 
